@@ -992,6 +992,9 @@ class Analyzer:
         # merge the callee's exit states back into `st` (facts only)
         alive = [s for s in outs if not s.dead] + [
             s for s, _ in rets if not s.dead]
+        # a `return` of the callee ends the callee, not the caller: the
+        # caller goes on iff some exit of the callee is reachable
+        st.dead = not alive
         if alive:
             common = [f for f in alive[0].facts
                       if all(f in s.facts for s in alive[1:])]
